@@ -33,7 +33,7 @@ def gates(tier):
     return {'identity_law_calls': 3000, 'numbered_only_cases': 300, 'constant_shadowing_cases': 300, 'dependent_chain_cases': 100, 'grader_calls': 5000, 'expected_correct': 1200, 'expected_incorrect': 1500,
             'partial_failure_patterns': 600, 'boundary_exact_cases': 200, 'tap_events': 15000,
             'tap_percent_events': 3000, 'array_cases': 800, 'inf_cases': 40, 'rewrite_cases': 300,
-            'relative_operand_discriminating': 40, 'norm_discriminating': 24}
+            'relative_operand_discriminating': 40, 'norm_discriminating': 24, 'default_comparer_scope_cases': 12}
 
 
 # ----------------------------------------------------------------------------- tap
@@ -495,6 +495,50 @@ def run_inf(ctx):
                 ctx.nontrivial(wit)
 
 
+def run_default_comparer_scope(ctx):
+    """FormulaGrader.set_default_comparer (docs/grading_math/comparer_functions.md) changes how FormulaGraders compare; Numerical and
+    Matrix graders keep comparing for equality within tolerance, also while it is in force, and FormulaGrader does again after the
+    reset.  (The class-level setting is process-wide: set and reset inside one try/finally.)"""
+    from mitxgraders import FormulaGrader, NumericalGrader, MatrixGrader
+    from mitxgraders.comparers import LinearComparer
+    rng = ctx.rng
+    for rep in range(ctx.pick(4, 25)):
+        scale = rng.choice(['2*', '0.5*', '-', '3*'])
+        cases = []
+        FormulaGrader.set_default_comparer(LinearComparer())
+        try:
+            mg = MatrixGrader(answers=rng.choice(['[x,2*x]', {'expect': '[x,2*x]', 'grade_decimal': 0.8}]), variables=['x'])
+            mi = MatrixGrader(variables=['x'])                    # (answer inferred from expect)
+            ng = NumericalGrader(answers='4')
+            fg = FormulaGrader(answers='x^2', variables=['x'])
+            cases += [('MatrixGrader', mg, None, scale + '[x,2*x]', 0), ('MatrixGrader', mg, None, '[x,2*x]+[1,1]', 0), ('MatrixGrader', mg, None, '[x,2*x]', None),
+                      ('MatrixGrader(expect)', mi, '[x,2*x]', scale + '[x,2*x]', 0), ('MatrixGrader(expect)', mi, '[x,2*x]', '[x,2*x]', 1),
+                      ('NumericalGrader', ng, None, scale + '4', 0), ('NumericalGrader', ng, None, '4+1', 0), ('NumericalGrader', ng, None, '4', 1)]
+            outs = [(c, lib.call(ctx, c[1], c[2], c[3])) for c in cases]
+            reach = lib.call(ctx, fg, None, '2*x^2')
+        finally:
+            FormulaGrader.reset_default_comparer()
+        after = lib.call(ctx, FormulaGrader(answers='x^2', variables=['x']), None, '2*x^2')
+        ctx.count('default_comparer_scope_cases')
+        if not reach.returned or reach.value['grade_decimal'] != 0.5:
+            ctx.inconclusive_because('harness: set_default_comparer(LinearComparer()) had no effect on FormulaGrader: %s' % (reach.brief(),))
+            return
+        for (name, g, expect, sub, want), out in outs + [(('FormulaGrader after reset', None, None, '2*x^2', 0), after)]:
+            ctx.ev()
+            ctx.count('grader_calls')
+            wit = {'grader': name, 'while': 'FormulaGrader.set_default_comparer(LinearComparer()) in force' if g is not None else 'after reset_default_comparer',
+                   'submission': sub, 'outcome': out.brief()}
+            ctx.nontrivial(['default_comparer_scope', name, sub])
+            if not out.returned:
+                ctx.violation('C04:default_comparer_scope:raises', repr(out.exc), wit)
+            elif want is None:
+                if out.value['grade_decimal'] <= 0:
+                    ctx.violation('C04:default_comparer_scope:identical_refused', repr(out.value), wit)
+            elif (out.value['grade_decimal'] > 0) != (want > 0):
+                ctx.violation('C04:default_comparer_scope:' + ('not_equality' if want == 0 else 'identical_refused'),
+                              '%r earned %r; this grader compares for equality within tolerance' % (sub, out.value['grade_decimal']), wit)
+
+
 def run(ctx):
     install_tap(ctx)
     run_delta_eps(ctx)
@@ -502,5 +546,6 @@ def run(ctx):
     run_rewrites(ctx)
     run_identity_law(ctx)
     if ctx.shard % 4 == 0:
+        run_default_comparer_scope(ctx)
         run_boundaries(ctx)
         run_inf(ctx)
